@@ -1,0 +1,74 @@
+//go:build verif
+
+package process
+
+// Verification hooks: a deterministic-simulation harness installs Sim to decide
+// which process goroutine runs next. With Sim == nil behaviour is unchanged.
+
+type SimHooks interface {
+	Spawn(p *Process, re *RuntimeEnvironment, run func())
+	Step(p *Process, re *RuntimeEnvironment)
+	Before(p *Process, re *RuntimeEnvironment, kind SimOpKind, data chan Message, ctlOut chan ControlMessage, ctlIn chan ControlMessage)
+	After(p *Process, re *RuntimeEnvironment, what SimOpResult)
+	Event(p *Process, re *RuntimeEnvironment, kind SimEventKind, rule Rule, label string)
+	Close(p *Process, re *RuntimeEnvironment, n Name)
+}
+
+var Sim SimHooks
+
+func simSpawn(p *Process, re *RuntimeEnvironment, np bool) bool {
+	if Sim == nil {
+		return false
+	}
+	if np {
+		Sim.Spawn(p, re, func() { p.transitionLoopNP(re) })
+	} else {
+		Sim.Spawn(p, re, func() { p.transitionLoop(re) })
+	}
+	return true
+}
+
+func simStep(p *Process, re *RuntimeEnvironment) {
+	if Sim != nil {
+		Sim.Step(p, re)
+	}
+}
+
+func simBefore(p *Process, re *RuntimeEnvironment, kind SimOpKind, data chan Message, ctlOut chan ControlMessage, ctlIn chan ControlMessage) {
+	if Sim != nil {
+		Sim.Before(p, re, kind, data, ctlOut, ctlIn)
+	}
+}
+
+func simAfter(p *Process, re *RuntimeEnvironment, what SimOpResult) {
+	if Sim != nil {
+		Sim.After(p, re, what)
+	}
+}
+
+func simEvent(p *Process, re *RuntimeEnvironment, kind SimEventKind, rule Rule) {
+	if Sim != nil {
+		label := ""
+		if pf, ok := p.Body.(*PrintForm); ok && rule == PRINT {
+			label = pf.label.L
+		}
+		Sim.Event(p, re, kind, rule, label)
+	}
+}
+
+func simClose(p *Process, re *RuntimeEnvironment, n Name) {
+	if Sim != nil {
+		Sim.Close(p, re, n)
+	}
+}
+
+// SimTypecheckExit, when set, is told how the typechecker's worker goroutine ended
+// (panicValue == nil: it returned normally). A panic is swallowed only when it is set.
+var SimTypecheckExit func(panicValue interface{})
+
+func simRecoverTypecheck() {
+	if SimTypecheckExit == nil {
+		return
+	}
+	SimTypecheckExit(recover())
+}
